@@ -40,7 +40,7 @@ func (v *Vue) evalVText(ctx VueContext, n *htmlnode.Node) error {
 	textStr := ""
 	if val != nil {
 		// (nothing is nothing, as in {{ }} and v-html: fmt would print "<nil>")
-		textStr = fmt.Sprint(val)
+		textStr = helpers.Sprint(val)
 	}
 	escapedStr := html.EscapeString(textStr)
 	n.Attr = append(n.Attr, htmlnode.Attribute{Key: "data-v-text-content", Val: escapedStr})
